@@ -31,6 +31,38 @@ class Fn:
         self.must = dict(must or {})
 
 
+def scope_aliases(fn):
+    """`using NAME = TYPE;` declarations in the scopes enclosing the function whose right-hand side maps to a C type
+    through the function's own substitution table (e.g. a maintainer's `using scalar_t = typename
+    contravariant_input_t::scalar_t;`).  Returned as extra substitutions; aliases that do not resolve are ignored."""
+    try:
+        src = open(os.path.join(X.REPO, fn.file)).read()
+    except OSError:
+        return []
+    blank = X.blank_preprocessor(X.blank_comments_and_strings(src))
+    out = []
+    lo, hi = 0, len(src)
+    ranges = [(lo, hi)]
+    try:
+        for sc in fn.scopes:
+            lo, hi = X._scope_range(blank, lo, hi, sc)
+            ranges.append((lo, hi))
+    except ExtractionError:
+        return []
+    seen = set()
+    for lo, hi in reversed(ranges):
+        for m in re.finditer(r"\busing\s+([A-Za-z_]\w*)\s*=\s*([^;{}]+);", blank[lo:hi]):
+            name = m.group(1)
+            if name in seen:
+                continue
+            rhs = src[lo + m.start(2):lo + m.end(2)]
+            ctype = map_cxx_type(rhs, list(fn.subst))
+            if ctype and re.match(r"^([A-Z][A-Z_0-9]*_T|size_t|uint\d+_t|int|unsigned|float|double|long)$", ctype) and name != ctype:
+                seen.add(name)
+                out.append((r"(?<![A-Za-z_0-9:])(?:typename\s+)?" + re.escape(name) + r"\b(?!\s*::)", ctype, 0, True))
+    return out
+
+
 def emit_fn(fn):
     """Returns (c_text, report)."""
     if fn.kind == "lambda":
@@ -74,8 +106,14 @@ def emit_fn(fn):
     body, n = X.r_std_algorithms(body); note("R16_algorithms", n)
     body, n = X.r_sizeof_decltype(body); note("R13_decltype", n)
     body, f = X.r_subst(body, list(fn.subst)); note("R4_subst", sum(c for _, c in f))
+    al = scope_aliases(fn)
+    if al:
+        body, f = X.r_subst(body, al); note("R4b_scope_alias", sum(c for _, c in f))
+    body, n = X.r_strip_ns(body); note("R2b_strip_detail_ns", n)
     body, n = X.r_std(body); note("R2_std", n)
     body, n = X.r_auto(body); note("R22_auto", n)
+    body, n = X.r_ref_to_array(body); note("R25_ref_to_array", n)
+    body, n = X.r_local_using(body); note("R26_local_using", n)
     body, n = X.r_functional_cast(body); note("R1b_functional_cast", n)
     body, n = X.r_brace_scalar_init(body); note("R1c_brace_init", n)
     body, n = X.r_if_constexpr(body); note("R6_if_constexpr", n)
@@ -88,7 +126,12 @@ def emit_fn(fn):
         body, n = X.r_fold_or(body, *fn.fold); note("R8_fold", n)
 
     if fn.mats:
-        body, n = X.r_matrix_ops(body, fn.mats); note("R17_matrix_ops", n)
+        mats = dict(fn.mats)
+        # locals declared with a matrix / vector C type are matrices whatever they are called
+        for m in re.finditer(r"\b(VEC_N1|VEC_N|MAT_N_N1|MAT_N1_N1)\s+([A-Za-z_]\w*(?:\s*,\s*[A-Za-z_]\w*)*)\s*[;=]", body):
+            for nm in re.split(r"\s*,\s*", m.group(2)):
+                mats.setdefault(nm, (".", "vec" if m.group(1).startswith("VEC") else "mat"))
+        body, n = X.r_matrix_ops(body, mats); note("R17_matrix_ops", n)
     if fn.brace_call:
         body, n = X.r_brace_call_arg(body, *fn.brace_call); note("R8b_brace_call", n)
     if fn.subst_post:
@@ -202,8 +245,11 @@ def map_cxx_type(t, subst):
     t, _ = X.r_std(t)
     t = re.sub(r"\b(COVFIE_DEVICE|static|constexpr|inline|const|typename)\b", " ", t)
     ref = "&" in t
+    t = re.sub(r"\[\[[^\]]*\]\]", " ", t)          # attributes such as [[noreturn]]
     t = t.replace("&", " ")
     t = " ".join(t.split())
+    if ref and re.match(r"^[A-Z_0-9]+_T$", t) is None and t not in ("size_t", "uint32_t", "uint64_t", "float", "double", "int", "unsigned", "char *"):
+        pass
     if not re.match(r"^[A-Za-z_]\w*( ?\*)*$", t):
         return None
     return t
@@ -212,9 +258,12 @@ def map_cxx_type(t, subst):
 def auto_helper(name, parent, known_subst):
     """Try to extract a helper function `name` that `parent` calls and that lives in the same file/struct."""
     loc = None
-    for scopes in (parent.scopes[:1], parent.scopes[:2], []):
+    found_scopes = None
+    cands = [parent.scopes[:k] for k in range(len(parent.scopes), -1, -1)] + [["namespace detail"], ["namespace covfie::utility"], ["namespace covfie::utility::detail"]]
+    for scopes in cands:
         try:
             loc = X.locate(parent.file, scopes, name)
+            found_scopes = scopes
             break
         except ExtractionError:
             continue
@@ -224,6 +273,7 @@ def auto_helper(name, parent, known_subst):
     if re.search(r"\btemplate\b", hdr):
         raise ExtractionError("helper %s called by %s is a function template: not extractable" % (name, parent.key))
     i = hdr.rindex(name)
+    known_subst = list(known_subst) + scope_aliases(Fn(name, parent.file, found_scopes, name, ret="void", ptypes=[], subst=known_subst))
     ret = map_cxx_type(hdr[:i], known_subst)
     if ret is None:
         raise ExtractionError("helper %s: return type %r not expressible in C" % (name, " ".join(hdr[:i].split())))
@@ -238,8 +288,13 @@ def auto_helper(name, parent, known_subst):
         ptypes.append(ty)
         pnames.append(m.group(2))
     vec_types = [v for v in ("IN_VEC_T", "ND_SIZE_T", "OUT_VEC_T", "B_IN_VEC_T") ]
-    return Fn(name, parent.file, parent.scopes[:1] if parent.scopes else [], name, ret=ret, ptypes=ptypes, pnames=pnames,
-              vec_types=vec_types, subst=known_subst, throws=False, auto=True)
+    dummy = "" if ret == "void" else ("0" if re.match(r"^(size_t|uint\d+_t|int|unsigned|float|double|long|char|_Bool)( \*)*$", ret) or ret.endswith("*") else "((%s){0})" % ret)
+    is_method = not re.search(r"\bstatic\b", hdr[:i]) and parent.method and "self" in parent.method and len(found_scopes) == len(parent.scopes) and len(parent.scopes) > 0
+    return Fn(name, parent.file, found_scopes, name, ret=ret, ptypes=ptypes, pnames=pnames,
+              vec_types=vec_types, subst=known_subst, throws=False, auto=True, dummy_ret=dummy,
+              members=parent.members, arrays=parent.arrays, arrays2=parent.arrays2, refparams=[n for t, n in zip(ptypes, pnames) if t.endswith("*")],
+              mats=parent.mats, propagate=parent.propagate,
+              method=(parent.method if is_method else None))
 
 
 class Unit:
@@ -300,6 +355,18 @@ class Unit:
                 if h is not None:
                     keys.add(nm)
                     queue.append(h)
+        # a helper that throws: its callers must propagate (R14) -- re-emit them with the helper in their propagate list
+        throwing = [fn.key for fn, t, r in emitted if fn.auto and "VERIF_THROW" in t]
+        if throwing:
+            again = []
+            for fn, t, r in emitted:
+                if any(re.search(r"\b" + re.escape(h) + r"\s*\(", t) for h in throwing) and fn.key not in throwing:
+                    fn.propagate = list(fn.propagate) + [h for h in throwing if h not in fn.propagate]
+                    if fn.dummy_ret is None:
+                        fn.dummy_ret = "" if fn.ret == "void" else "0"
+                    t, r = emit_fn(fn)
+                again.append((fn, t, r))
+            emitted = again
         # helpers first (they are called by the functions that discovered them)
         ordered = [e for e in emitted if e[0].auto] + [e for e in emitted if not e[0].auto]
         # forward declarations: helpers are emitted first but may call functions defined later (an implicit
